@@ -16,4 +16,14 @@ Eval vm_compute in ("cex"%string,
          let a := snd (fst ab) in let b := snd (snd ab) in
          (2 :: make_seq w (fst a) (snd a) ++ [999] ++ make_seq w (fst b) (snd b),
           enc_sc (last_out I (make_seq w (fst a) (snd a))), enc_sc (last_out I (make_seq w (fst b) (snd b)))))
-      (firstn 10 (clashes_C19 I w))).
+      (firstn 10 (clashes_C19 I w))
+  ++
+  (* history dependence: a complete sequence that does not leave the decoder in its initial state, followed
+     by a complete sequence which is then decoded differently than on a fresh decoder *)
+  (let all := flat_map (fun x : prefix * N => [make_seq w (fst x) (snd x); break_seq w (fst x) (snd x)]) (wf_domain w) in
+   let firsts := flat_map (fun x : prefix * N => filter (fun bs => negb (home I bs)) [make_seq w (fst x) (snd x); break_seq w (fst x) (snd x)])
+                          (firstn 24 (homeless_C19 I w)) in
+   map (fun ab : list N * list N => (2 :: snd ab ++ [999] ++ fst ab ++ snd ab, enc_sc (last_out I (snd ab)), enc_sc (last_out I (fst ab ++ snd ab))))
+       (firstn 10 (filter (fun ab : list N * list N =>
+                     negb (outcome_eqb scres_eqb (last_out I (snd ab)) (last_out I (fst ab ++ snd ab))))
+                  (list_prod firsts all))))).
